@@ -176,7 +176,11 @@ where
     let mut ends_with_cr = false;
 
     loop {
-        let src = reader.fill_buf()?;
+        let src = match reader.fill_buf() {
+            Ok(src) => src,
+            Err(ref e) if e.kind() == io::ErrorKind::Interrupted => continue,
+            Err(e) => return Err(e),
+        };
 
         // A definition starts at the beginning of a line only.
         let is_definition = bytes_read == 0 && src.first() == Some(&DEFINITION_PREFIX);
@@ -216,8 +220,13 @@ fn is_last_sequence_line<R>(reader: &mut R) -> io::Result<bool>
 where
     R: BufRead,
 {
-    let src = reader.fill_buf()?;
-    Ok(src.is_empty() || src[0] == DEFINITION_PREFIX)
+    loop {
+        match reader.fill_buf() {
+            Ok(src) => return Ok(src.is_empty() || src[0] == DEFINITION_PREFIX),
+            Err(ref e) if e.kind() == io::ErrorKind::Interrupted => {}
+            Err(e) => return Err(e),
+        }
+    }
 }
 
 #[derive(Debug)]
